@@ -3,8 +3,10 @@ CONSTANTS NB = 5
  Confs <- McNone
  NT = 0
  MaxDup = 0
+ Races = TRUE
  BugAddMiddle = TRUE
  BugTxLoopVar = FALSE
+ BugConfirmRace = FALSE
 INVARIANTS Converges
 PROPERTY Forward
 CHECK_DEADLOCK FALSE
